@@ -5,5 +5,4 @@ package bfe_http2
 
 import "verif/simrt"
 
-func runState(focus string) func(s *simrt.Sim) { return func(s *simrt.Sim) {} }
-func runFlood(s *simrt.Sim)                    {}
+func runFlood(s *simrt.Sim) {}
